@@ -115,6 +115,7 @@ class H11ConnModel:
             raise PyRaise(SObj(RuntimeError, {"args": ()}), fr.where())
         obj.fields["recv_closed"] = mk_bool(z3.Or(closed, data.n == 0))
         obj.fields["pending"] = SymBool(z3.Bool(ctx.fresh_name("h11.pending")))
+        interp.traces.setdefault("h11_in", []).append(data)
         return None
 
     def _request(self, interp):
@@ -186,6 +187,7 @@ class H11ConnModel:
         f["their_state"] = h11.ERROR
         hint = ctx.fresh("error_status_hint", I)
         ctx.assume(z3.And(hint >= 400, hint <= 599))
+        interp.traces.setdefault("h11_err", []).append(mk_int(hint))
         raise PyRaise(SObj(h11.RemoteProtocolError, {"args": (), "error_status_hint": mk_int(hint)}), fr.where())
 
     def m_send(self, interp, obj, args, kwargs, fr):
